@@ -52,6 +52,57 @@ def graph_realisations(rng, kind, k):
     return g1.small_dense(rng)
 
 
+def chord_diagram(rng, k):
+    """k single-pair stems on 2k positions (random perfect matching); returns pairs (1-based partner list)"""
+    pts = list(range(2 * k))
+    rng.shuffle(pts)
+    pairs = [0] * (2 * k)
+    for t in range(k):
+        a, b = pts[2 * t], pts[2 * t + 1]
+        pairs[a], pairs[b] = b + 1, a + 1
+    return pairs
+
+
+def diagram_graph(pairs):
+    st = sorted((i, p - 1) for i, p in enumerate(pairs) if p and p - 1 > i)
+    adj = [set() for _ in st]
+    for u, (k, l) in enumerate(st):
+        for v, (m, n) in enumerate(st):
+            if k < m < l < n:
+                adj[u].add(v)
+                adj[v].add(u)
+    return adj
+
+
+def connected(adj):
+    seen, stack = {0}, [0]
+    while stack:
+        for y in adj[stack.pop()]:
+            if y not in seen:
+                seen.add(y)
+                stack.append(y)
+    return len(seen) == len(adj)
+
+
+def twin_groups(rng, k):
+    """two separate groups of k crossing stems with the same degree sequence (in 5'->3' order) but different wiring:
+    look-alike groups, on which anything keyed by a lossy invariant of a group goes wrong"""
+    for _ in range(400):
+        a = chord_diagram(rng, k)
+        ga = diagram_graph(a)
+        if not connected(ga) or any(abs(p - 1 - i) == 1 for i, p in enumerate(a) if p):
+            continue
+        da = [len(x) for x in ga]
+        for _ in range(400):
+            b = chord_diagram(rng, k)
+            gb = diagram_graph(b)
+            if connected(gb) and [len(x) for x in gb] == da and gb != ga:
+                off = len(a) + 1
+                pairs = a + [0] + [p + off if p else 0 for p in b]
+                return (g1.seq_for(len(pairs), rng), pairs)
+    return None
+
+
 def run(ctx):
     res = Result("C16")
     limit = ctx.pick(6, 8)
@@ -72,6 +123,10 @@ def run(ctx):
     for k in range(2, limit + 1):
         for kind in ("ladder", "path", "star"):
             inputs.append((kind + str(k), graph_realisations(rng, kind, k)))
+    for _ in range(ctx.pick(40, 400)):
+        tw = twin_groups(rng, rng.choice([4, 5, 5]))
+        if tw is not None:
+            inputs.append(("twin-groups", tw))
     inputs = [(t, c) for t, c in inputs if components_ok(c[1], limit)]
     outs = parallel_map(real, [c for _, c in inputs])
     reqs, idx = [], []
